@@ -16,6 +16,7 @@ TYPES = {0: (1, 1), 1: (2, 2), 2: (4, 4), 3: (8, 8), 4: (3, 1), 5: (6, 2), 6: (1
 PAIRS = [(0, 3), (9, 2), (10, 7), (12, 4), (1, 11), (13, 0), (3, 3), (10, 12)]
 TRIPLES = [(0, 10, 3), (4, 12, 9), (2, 5, 13), (11, 13, 10)]
 CONFIGS = [(4, 0), (4, 1), (5, 0), (6, 1), (7, 0), (8, 0), (8, 1), (15, 0)]
+CONFIGS3 = [(9, 1), (10, 0), (11, 1), (12, 0), (13, 1), (14, 0)]       # harness3.cpp
 NAMES = ['id', 'name', 'price', 'count', 'date', 'flag', 'weight', 'x', 'y', 'z', 'key', 'value', 'parent', 'child',
          'first', 'second', 'intCol', 'dblCol', 'strCol', 'row', 'a', 'b', 'c', 'col0', 'col1', 'col2', 'col3']
 
@@ -36,6 +37,31 @@ def short_vertices(code, L):
         s = (s + (s >> 8)) & M64
     m = (1 << L) - 1
     return (s & m, (s >> L) & m)
+
+
+def aim_vertices(code, L, cp):
+    s1, s2 = short_vertices(code, L)
+    v1 = s1 ^ (cp >> 4); v2 = s2 ^ (cp & 15)
+    return v1, v2 ^ (1 if v1 == v2 else 0)
+
+
+def aim_first_param(codes, L, start):
+    """first code parameter >= start for which the vertex graph of `codes` is a forest (None = none up to 255).
+    Only used to AIM the generator at large mCodeParam values; what really happens is observed on the real class."""
+    for cp in range(start, 256):
+        parent = {}
+        def find(x):
+            while parent.get(x, x) != x:
+                parent[x] = parent.get(parent[x], parent[x]); x = parent[x]
+            return x
+        ok = True
+        for c in codes:
+            a, b = aim_vertices(c, L, cp)
+            ra, rb = find(a), find(b)
+            if ra == rb: ok = False; break
+            parent[ra] = rb
+        if ok: return cp
+    return None
 
 
 def colstr(t, code, mut=False):
@@ -107,8 +133,11 @@ class CaseGen:
             ops.append(tag + ' ' + ' '.join(cols))
         return ops, used
 
-    def finish(self, L, keep, ops, used):
+    def finish(self, L, keep, ops, used, ctor=None):
         r = self.r
+        if ctor is None: ctor = r.chance(1, 5)
+        if ctor and ops and not any(t.isdigit() and 100 <= int(t) < 116 for t in ops[0].split()[1::4]):
+            ops = [ops[0][0].upper() + ops[0][1:]] + ops[1:]       # first group through DataColumnList(column, columns...)
         extras = []
         for t in (9, 11, 2):
             c = r.next()
@@ -150,6 +179,14 @@ class CaseGen:
                 ops.append('a ' + colstr(2, c3))
                 ops.append('a ' + colstr(3, r.next()))
                 out.append(self.finish(L, keep, ops, used + [c1, c2, c3]))
+        if scale > 1:
+            for keep in (0, 1):                                  # logVertexCount 8 filled to its 128 columns, then one more
+                ops = []; used = []
+                for i in range(128):
+                    c = fnv('full%d' % i) if keep else 3 * i
+                    used.append(c); ops.append('a ' + colstr(i % 16, c, i % 5 == 0))
+                ops.append('a ' + colstr(2, 777777)); ops.append('g %s %s' % (colstr(0, 888888), colstr(3, 999999)))
+                out.append(self.finish(8, keep, ops, used, ctor=False))
         # 4. layout boundaries: every ordered pair / many triples of types from an empty list
         for (L, keep) in ((8, 0), (8, 1)):
             for t1 in range(16):
@@ -157,6 +194,58 @@ class CaseGen:
                     t3 = r.below(16)
                     ops = ['a ' + colstr(t, 1000 + 17 * k) for k, t in enumerate((t1, t2, t3))]
                     out.append(self.finish(L, keep, ops, [1000, 1017, 1034]))
+        return out
+
+    def cases3(self, scale):
+        """harness3: vertex-count settings 9..14"""
+        r = self.r; out = []
+        for (L, keep) in CONFIGS3:
+            for rep in range(2 if scale == 1 else 6):
+                nops = r.range(2, 9)
+                ops, used = self.history(L, keep, nops, dup_rate=r.choice([0, 0, 6]) if L < 12 else 0)
+                out.append(self.finish(L, keep, ops, used))
+        return out
+
+    def param_cases(self, scale):
+        """aimed at the retry loop: logVertexCount 4, codes dense in the vertex space, lists filled to 7-8 columns so that
+        most code parameters fail (cycles) and the final mCodeParam gets large"""
+        r = self.r; out = []
+        for rep in range(40 * scale):
+            keep = r.below(2)
+            ops = []; used = []
+            for _ in range(8):
+                c = r.below(256) if rep % 2 else r.below(1 << 16)
+                used.append(c); ops.append('a ' + colstr(r.choice([0, 1, 2, 3]), c, r.chance(1, 4)))
+            out.append(self.finish(4, keep, ops, used, ctor=False))
+        return out
+
+    def high_param_cases(self, scale):
+        """greedy adversarial histories: each next column is the candidate that pushes the first workable code parameter as
+        far as possible (codeParam >> 4 != 0 only from 16 on; 255 is the last one); the last op is a column for which NO
+        parameter works although it collides permanently with nobody (refusal by exhaustion)"""
+        r = self.r; out = []
+        for rep in range(12 * scale):
+            L, keep = r.choice([(4, 0), (4, 1), (5, 0)])
+            maxc = 1 << (L - 1)
+            codes = []; cp = 0; ops = []
+            exhausted = None
+            for i in range(maxc):
+                best = None
+                for _ in range(120 if 2 * i >= maxc else 10):
+                    c = r.below(1 << (2 * L + 2))
+                    if c in codes: continue
+                    f = aim_first_param(codes + [c], L, cp)
+                    if f is None:
+                        if len({short_vertices(x, L) for x in codes + [c]}) == len(codes) + 1: exhausted = c
+                        continue
+                    if best is None or f > best[0]: best = (f, c)
+                if best is None: break
+                cp, c = best; codes.append(c)
+                ops.append('a ' + colstr(r.choice([0, 1, 2, 3, 4]), c, r.chance(1, 5)))
+            used = list(codes)
+            if exhausted is not None:
+                ops.append('a ' + colstr(2, exhausted)); used.append(exhausted)
+            out.append(self.finish(L, keep, ops, used, ctor=False))
         return out
 
     def fail_cases(self, scale):
@@ -183,6 +272,20 @@ class CaseGen:
                 cs = [r.next() for _ in ts]; used += cs
                 ops.append(('h ' if len(ts) == 3 else 'g ') + ' '.join(colstr(t, c) for t, c in zip(ts, cs)))
             out.append('F ' + self.finish(8, 0, ops, used))
+        # D cases: the dynamic list over struct S1: codes = member offsets (DataColumnCodeOffset), every subset / order
+        offs, _, _ = natural_layout(STRUCTS[1]); stypes = [0, 3, 9, 1, 12, 2]
+        for rep in range(14 * scale):
+            L, keep = r.choice([(4, 0), (8, 1)])
+            idx = list(range(6)); r.shuffle(idx); idx = idx[:r.range(1, 6)]
+            ops = []; i = 0
+            while i < len(idx):
+                if i + 1 < len(idx) and (stypes[idx[i]], stypes[idx[i + 1]]) in PAIRS and r.below(2):
+                    ops.append('g %s %s' % (colstr(stypes[idx[i]], offs[idx[i]]), colstr(stypes[idx[i + 1]], offs[idx[i + 1]]))); i += 2
+                else:
+                    ops.append('a ' + colstr(stypes[idx[i]], offs[idx[i]], r.chance(1, 4))); i += 1
+            if r.below(3) == 0:
+                ops.append('a ' + colstr(stypes[idx[0]], offs[idx[0]]))       # the same member again: refused
+            out.append('D %d %d %s ; ? %s' % (L, keep, ' ; '.join(ops), ' '.join(str(o) for o in offs + [1, 7, 96])))
         for sid, ms in STRUCTS.items():
             for keep in (0, 1):
                 for rep in range(5 * scale):
@@ -222,15 +325,15 @@ class CaseGen:
 def parse_case(case):
     w = case.split(' ; ')
     head = w[0].split()
-    if head[0] == 'F': head = head[1:]
+    if head[0] in ('F', 'D'): head = head[1:]
     L, keep = int(head[0]), int(head[1])
     segs = [' '.join(head[2:])] + w[1:]
     ops = []; universe = []
     for s in segs:
         t = s.split()
         if not t: continue
-        if t[0] in ('a', 'g', 'h'):
-            n = {'a': 1, 'g': 2, 'h': 3}[t[0]]
+        if t[0].lower() in ('a', 'g', 'h'):
+            n = {'a': 1, 'g': 2, 'h': 3}[t[0].lower()]
             cols = [(int(t[1 + 4 * k + 3]), int(t[1 + 4 * k + 1]), int(t[1 + 4 * k + 2]), int(t[1 + 4 * k]) >= 100) for k in range(n)]   # (code,size,align,mutable)
             ops.append(cols)
             for c in cols:
@@ -384,10 +487,16 @@ def check_unit(case, out):
     return None
 
 
+def which_harness(case):
+    if case[0] in 'FSD': return 'harness2'
+    w = case.split()
+    return 'harness3' if w[0].isdigit() and 9 <= int(w[0]) <= 14 else 'harness'
+
+
 def replay(ctx, rp):
     case = rp.get('case')
-    two = bool(case) and case[0] in 'FS'
-    harness = ctx.cxx('harness2.cpp', 'harness2', ['-Wno-invalid-offsetof']) if two else ctx.cxx('harness.cpp', 'harness')
+    hn = which_harness(case) if case else 'harness'
+    harness = ctx.cxx(hn + '.cpp', hn, ['-Wno-invalid-offsetof'])
     if harness is None:
         print('harness does not build'); return 2
     if not case:
@@ -404,23 +513,65 @@ def replay(ctx, rp):
     print('property holds on this case'); return 0
 
 
+def measure(case, out, dist):
+    """what this history really exercised (measured from the case and the real class's output)"""
+    try:
+        L, keep, ops, _ = parse_case(case)
+    except Exception:
+        return
+    key = '%d,%d' % (L, keep) + (' FailMM' if case.startswith('F ') else ' struct-codes' if case.startswith('D ') else '')
+    d = dist['histories_per_config(logVertexCount,keepRowNumber)']; d[key] = d.get(key, 0) + 1
+    segs = out.split(' ; ')
+    toks = case.split()
+    first_ctor = any(t in ('A', 'G', 'H') for t in toks[:4])
+    ncols = 0; last_cp = 0
+    for k, (op, seg) in enumerate(zip(ops, segs)):
+        w = seg.split()
+        if len(w) < 5 or w[0] not in ('A', 'R', 'T'): break
+        if k == 0 and first_ctor: dist['add_calls_by_arity']['constructor(columns...)'] += 1
+        else: dist['add_calls_by_arity']['Add(%d)' % len(op)] += 1
+        if w[0] == 'A':
+            for c in op:
+                kk = '%d/%d' % (c[1], c[2]); t = dist['columns_added_per_item_type(size/align)']; t[kk] = t.get(kk, 0) + 1
+            ncols += len(op); last_cp = int(w[1])
+        elif w[0] == 'R':
+            dist['refused_on_empty_list' if ncols == 0 else 'refused_on_nonempty_list'] += 1
+    m = dist['max_columns_reached_per_logVertexCount']; m[str(L)] = max(m.get(str(L), 0), ncols)
+    if ncols == 1 << (L - 1): dist['lists_filled_to_maxColumnCount'] += 1
+    b = '0' if last_cp == 0 else '1-7' if last_cp < 8 else '8-15' if last_cp < 16 else '16+'
+    dist['final_codeParam'][b] += 1
+    ck = dist['code_kind']
+    if case.startswith('D '): ck['member offset (DataColumnCodeOffset)'] += ncols
+    else:
+        named = sum(1 for s_ in case.split(' ; ') if s_.split() and s_.split()[0].lower() == 'a' and len(s_.split()) > 5 and s_.split()[-1] not in (';',) and not s_.split()[-1].isdigit())
+        ck['string-hash (DataColumn(name))'] += named; ck['explicit 64-bit'] += max(0, ncols - named)
+    ev = [x for x in segs if x.startswith('ev ')]
+    if ev and ' C' in ev[0]:
+        dist['histories_with_instrumented_items'] += 1
+        dist['row_failure_scenarios_compared_with_L2_model'] += ev[0].count('|')
+
+
 def run_isolating(ctx, exe, cases, tag):
     """run the harness over all cases; if it dies (assertion / signal) the case it died on is reported and the run
     continues behind it, so one crash does not hide the other cases.  returns [(case, output line)]"""
     res = []; rest = list(cases); crashes = 0
+    counters = ctx.coverage.setdefault('harness_counters', {'alloc_failure_points': 0, 'row_ctor_failures_injected': 0})
     while rest:
         path = os.path.join(ctx.build, 'oracle-%s.cases' % tag)
         open(path, 'w').write('\n'.join(rest) + '\n')
-        rc, lines, err = ctx.run_lines([exe], path, timeout=120)     # rc 124 = hung (e.g. a corrupted edge list)
+        rc, lines, err = ctx.run_lines([exe], path, timeout=75)      # rc 124 = hung (e.g. a corrupted edge list)
+        for l in err.splitlines():
+            if l.startswith('af '): counters['alloc_failure_points'] += int(l[3:])
+            elif l.startswith('inj '): counters['row_ctor_failures_injected'] += int(l[4:])
         n = min(len(lines), len(rest))
         res += list(zip(rest[:n], lines[:n]))
         if rc == 0 and n == len(rest):
             break
         if n < len(rest):
-            tail = ' '.join(l for l in err.strip().splitlines()[-3:] if not l.startswith('af '))[-400:]
+            tail = ' '.join([l for l in err.strip().splitlines() if not l.startswith(('af ', 'inj '))][-3:])[-400:]
             res.append((rest[n], '<harness died on this case (%s)> %s' % ('hung: timeout' if rc == 124 else 'exit %s' % rc, tail)))
             rest = rest[n + 1:]; crashes += 1
-            if crashes >= 4:
+            if crashes >= 3:
                 break
         else:
             break
@@ -441,18 +592,20 @@ def run(ctx):
     pool = cf.ThreadPoolExecutor(max_workers=6)
     fut1 = pool.submit(ctx.cxx, 'harness.cpp', 'harness')      # ~45 s of g++: overlap with regen/prove/extract
     fut2 = pool.submit(ctx.cxx, 'harness2.cpp', 'harness2', ['-Wno-invalid-offsetof'])
+    fut3 = pool.submit(ctx.cxx, 'harness3.cpp', 'harness3')
     ctx.regen(GEN)
     ctx.prove()
     have_model = bool(ctx.stages.get('prove', {}).get('ok') and ctx.stages.get('regen', {}).get('ok') and ctx.extract())
     harness = fut1.result(); err1 = getattr(ctx, 'last_cxx_error', '')
-    harness2 = fut2.result()
-    if harness is None or harness2 is None:
+    harness2 = fut2.result(); harness3 = fut3.result()
+    if harness is None or harness2 is None or harness3 is None:
         ctx.stage('build-harness', False, getattr(ctx, 'last_cxx_error', '') or err1)
         return ctx.finish(rule=RULE)
     gen = CaseGen(ctx)
     units = gen.unit_cases(scale)
-    cases = gen.cases(scale)
+    cases = gen.cases(scale) + gen.param_cases(scale) + gen.high_param_cases(scale)
     cases2 = gen.fail_cases(scale)
+    cases3 = gen.cases3(scale)
     if have_model:
         mism, _ = ctx.correspond('translator-validation', units, [harness], [ctx.model_exe])
         ctx.tie_obligations.append({'name': 'generated GetVertices/Ceil == real C++ on %d cases' % len(units), 'ok': not mism})
@@ -460,12 +613,12 @@ def run(ctx):
             ctx.violation('generated Gallina and the real function disagree', {'case': c, 'impl': a, 'model': b}, found_input=True)
         # the model side is slow for logVertexCount 15: run 4 chunks in parallel, record one stage
         ev0, tv0 = ctx.evaluations, ctx.traces_validated
-        chunks = [(harness, cases[k::4]) for k in range(4)] + [(harness2, cases2)]
-        res = list(pool.map(lambda kc: ctx.correspond('model-vs-DataColumnList-%d' % kc[0], kc[1][1], [kc[1][0]], [ctx.model_exe], timeout=240, stage=False),
+        chunks = [(harness, cases[k::4]) for k in range(4)] + [(harness2, cases2), (harness3, cases3)]
+        res = list(pool.map(lambda kc: ctx.correspond('model-vs-DataColumnList-%d' % kc[0], kc[1][1], [kc[1][0]], [ctx.model_exe], timeout=(150 if ctx.quick() else 1200), stage=False),
                             list(enumerate(chunks))))
         mism = [m for (ms, _) in res for m in ms]
         crashed = [r for (_, r) in res if r[0] != 0 or r[2] != 0]
-        ncases = len(cases) + len(cases2)
+        ncases = len(cases) + len(cases2) + len(cases3)
         ctx.evaluations = ev0 + ncases; ctx.traces_validated = tv0 + ncases - len(mism)
         ctx.stage('corr:model-vs-DataColumnList', not mism and not crashed,
                   ('first disagreement: case %r impl=%r model=%r (%d total)' % (mism[0][1][:300], mism[0][2][:300], mism[0][3][:300], len(mism)) if mism else '') +
@@ -478,15 +631,23 @@ def run(ctx):
             ctx.violation('model and implementation disagree', {'case': c, 'impl': a, 'model': b}, found_input=True)
     if any(not s['ok'] for s in ctx.stages.values()):
         ctx.log('a stage broke: searching the implementation for a failing input with the thorough generator')
-        cases = cases + gen.cases(6)
+        cases = cases + gen.cases(6) + gen.high_param_cases(3)
         cases2 = cases2 + gen.fail_cases(4)
+        cases3 = cases3 + gen.cases3(3)
         units = units + gen.unit_cases(4)
     f1 = pool.submit(run_isolating, ctx, harness, units + cases, '1')
     f2 = pool.submit(run_isolating, ctx, harness2, cases2, '2')
-    results = f1.result() + f2.result()
+    f3 = pool.submit(run_isolating, ctx, harness3, cases3, '3')
+    results = f1.result() + f2.result() + f3.result()
     ctx.evaluations += len(results)
     bad = []
-    dist = {'ops': 0, 'added': 0, 'refused': 0, 'too_many': 0, 'retries': 0, 'mutable_columns': 0}
+    dist = {'ops': 0, 'added': 0, 'refused': 0, 'too_many': 0, 'retries': 0, 'mutable_columns': 0,
+            'histories_per_config(logVertexCount,keepRowNumber)': {}, 'columns_added_per_item_type(size/align)': {},
+            'add_calls_by_arity': {'Add(1)': 0, 'Add(2)': 0, 'Add(3)': 0, 'constructor(columns...)': 0},
+            'final_codeParam': {'0': 0, '1-7': 0, '8-15': 0, '16+': 0},
+            'refused_on_empty_list': 0, 'refused_on_nonempty_list': 0, 'lists_filled_to_maxColumnCount': 0,
+            'max_columns_reached_per_logVertexCount': {}, 'code_kind': {'string-hash (DataColumn(name))': 0, 'explicit 64-bit': 0, 'member offset (DataColumnCodeOffset)': 0},
+            'histories_with_instrumented_items': 0, 'row_failure_scenarios_compared_with_L2_model': 0}
     for (c, out) in results:
         if c.split()[0] in ('v', 'c'):
             why = check_unit(c, out)
@@ -496,6 +657,7 @@ def run(ctx):
             why, nt = check_case(c, out)
             if nt: ctx.nontrivial.add(c)
             if not c.startswith('S '):
+                measure(c, out, dist)
                 for seg in out.split(' ; '):
                     if seg[:2] in ('A ', 'R ', 'T '):
                         dist['ops'] += 1
@@ -508,11 +670,13 @@ def run(ctx):
     ctx.stage('oracle', not bad, bad[0][2] if bad else '')
     for (c, out, why) in bad[:3]:
         ctx.violation(why, {'case': c, 'impl_output': out[:2000],
-                            'cmd': "echo '%s' | build/C18/%s" % (c, 'harness2' if c[0] in 'FS' else 'harness')}, found_input=True)
+                            'cmd': "echo '%s' | build/C18/%s" % (c, which_harness(c))}, found_input=True)
     for c in (cases[::max(1, len(cases) // 4)][:4] + cases2[:1] + cases2[-1:]):
         ctx.add_sample(c[:400])
     dist['histories'] = len(cases); dist['unit_cases'] = len(units)
     dist['alloc_failure_histories'] = sum(c.startswith('F') for c in cases2); dist['static_list_cases'] = sum(c.startswith('S') for c in cases2)
+    dist['dynamic_list_with_member_offset_codes'] = sum(c.startswith('D') for c in cases2)
+    dist.update(ctx.coverage.get('harness_counters', {}))
     ctx.coverage['input_distribution'] = dist
     return ctx.finish(rule=RULE)
 
